@@ -64,15 +64,15 @@ fn start(kinds: Vec<(u32, OpKind)>) -> BoxedStrategy<Ev> {
                 OpKind::Unsub(_) => OpKind::Unsub(n),
                 k => k,
             };
-            Ev::Start { h: h * 64, kind, settle: false }
+            Ev::Start { h: h * 64, kind, settle: false, solo: false }
         })
         .boxed()
 }
 
 fn in_publish(qos: BoxedStrategy<u8>, pid: BoxedStrategy<u16>, target: BoxedStrategy<Target>) -> BoxedStrategy<Ev> {
-    (qos, any::<bool>(), any::<bool>(), pid, target, prop_oneof![4 => 0u16..8, 1 => Just(600u16)])
-        .prop_map(|(qos, dup, retain, pid, target, payload_len)| {
-            Ev::In(Inbound::Publish { qos, dup, retain, pid, target, payload_len })
+    (qos, any::<bool>(), any::<bool>(), pid, target, prop_oneof![4 => 0u16..8, 1 => Just(600u16)], prop_oneof![1 => Just(0u8), 1 => any::<u8>()])
+        .prop_map(|(qos, dup, retain, pid, target, payload_len, props)| {
+            Ev::In(Inbound::Publish { qos, dup, retain, pid, target, payload_len, props })
         })
         .boxed()
 }
@@ -82,7 +82,7 @@ fn sub_ready() -> BoxedStrategy<Vec<Ev>> {
     (0u8..4, any::<bool>())
         .prop_map(|(n, with_stream)| {
             let mut v = vec![
-                Ev::Start { h: 0, kind: OpKind::Sub(n), settle: false },
+                Ev::Start { h: 0, kind: OpKind::Sub(n), settle: false, solo: false },
                 Ev::Settle,
                 Ev::In(Inbound::Ack { sel: 65535, deco: Deco { reason_string: true, ..Default::default() } }),
                 Ev::Settle,
@@ -97,7 +97,7 @@ fn sub_ready() -> BoxedStrategy<Vec<Ev>> {
 
 fn settled(e: Ev) -> Ev {
     match e {
-        Ev::Start { h, kind, .. } => Ev::Start { h, kind, settle: true },
+        Ev::Start { h, kind, .. } => Ev::Start { h, kind, settle: true, solo: false },
         other => other,
     }
 }
@@ -228,9 +228,9 @@ impl Property for C05 {
     fn exhaustive(tier: Tier, worker: usize, workers: usize) -> Box<dyn Iterator<Item = Scenario>> {
         let d = Deco { reason: 0, reason_string: true, user_props: 1, short: false };
         let alphabet = vec![
-            Ev::Start { h: 0, kind: OpKind::Pub1, settle: false },
-            Ev::Start { h: 0, kind: OpKind::Sub(0), settle: false },
-            Ev::Start { h: 0, kind: OpKind::Ping, settle: false },
+            Ev::Start { h: 0, kind: OpKind::Pub1, settle: false, solo: false },
+            Ev::Start { h: 0, kind: OpKind::Sub(0), settle: false, solo: false },
+            Ev::Start { h: 0, kind: OpKind::Ping, settle: false, solo: false },
             Ev::In(Inbound::Ack { sel: 0, deco: d }),
             Ev::In(Inbound::Ack { sel: 65535, deco: d }),
             Ev::PollCtx,
@@ -402,7 +402,7 @@ impl Property for C07 {
             let mut events = vec![];
             let ok = Deco { reason_string: true, ..Default::default() };
             for _ in 0..n {
-                events.push(Ev::Start { h: 0, kind: OpKind::Sub(0), settle: false });
+                events.push(Ev::Start { h: 0, kind: OpKind::Sub(0), settle: false, solo: false });
                 events.push(Ev::In(Inbound::Ack { sel: 65535, deco: ok }));
                 events.push(Ev::MakeStream { sel: 65535 });
             }
@@ -413,10 +413,10 @@ impl Property for C07 {
                 picks.extend([16_382, 16_383, 16_384, 16_385]);
             }
             for i in picks.iter().copied() {
-                events.push(Ev::In(Inbound::Publish { qos: (i % 3) as u8, dup: false, retain: false, pid: 0, target: Target::Sub(at(i)), payload_len: 2 }));
+                events.push(Ev::In(Inbound::Publish { qos: (i % 3) as u8, dup: false, retain: false, pid: 0, target: Target::Sub(at(i)), payload_len: 2, props: 0 }));
             }
-            events.push(Ev::In(Inbound::Publish { qos: 1, dup: false, retain: false, pid: 0, target: Target::Two(at(127), at(128)), payload_len: 1 }));
-            events.push(Ev::In(Inbound::Publish { qos: 0, dup: false, retain: false, pid: 0, target: Target::Two(at(n - 1), at(0)), payload_len: 1 }));
+            events.push(Ev::In(Inbound::Publish { qos: 1, dup: false, retain: false, pid: 0, target: Target::Two(at(127), at(128)), payload_len: 1, props: 0 }));
+            events.push(Ev::In(Inbound::Publish { qos: 0, dup: false, retain: false, pid: 0, target: Target::Two(at(n - 1), at(0)), payload_len: 1, props: 0 }));
             v.push(Scenario { receive_max: None, max_packet_size: None, id_offset: 0, events });
         }
         Box::new(v.into_iter())
@@ -475,7 +475,7 @@ impl Property for C08 {
             3 => one((1u16..5, any::<bool>()).prop_map(|(pid, known)| Ev::In(Inbound::Pubrel { pid, known }))),
             // a PUBREL sent twice in a row (the broker lost the PUBCOMP)
             1 => (1u16..5).prop_map(|pid| vec![
-                Ev::In(Inbound::Publish { qos: 2, dup: false, retain: false, pid, target: Target::Sub(0), payload_len: 0 }),
+                Ev::In(Inbound::Publish { qos: 2, dup: false, retain: false, pid, target: Target::Sub(0), payload_len: 0, props: 0 }),
                 Ev::In(Inbound::Pubrel { pid, known: false }),
                 Ev::In(Inbound::Pubrel { pid, known: false }),
             ]),
@@ -483,7 +483,7 @@ impl Property for C08 {
             1 => one(sel().prop_map(|sel| Ev::DropOp { sel })),
             // several inbound packets arriving in ONE read (or cut arbitrarily)
             3 => (vec((0u8..3, any::<bool>(), target_any(), 0u16..6), 2..6), crate::gen::chunk_plan(), any::<bool>()).prop_map(|(items, plan, sb)| vec![Ev::Burst {
-                items: items.into_iter().map(|(qos, dup, target, payload_len)| Inbound::Publish { qos, dup, retain: false, pid: 0, target, payload_len }).collect(),
+                items: items.into_iter().map(|(qos, dup, target, payload_len)| Inbound::Publish { qos, dup, retain: false, pid: 0, target, payload_len, props: 0 }).collect(),
                 plan,
                 settle_between: sb,
             }]),
@@ -539,7 +539,7 @@ fn c09_pid() -> BoxedStrategy<u16> {
 
 fn c09_prologue() -> Vec<Ev> {
     vec![
-        Ev::Start { h: 0, kind: OpKind::Sub(0), settle: false },
+        Ev::Start { h: 0, kind: OpKind::Sub(0), settle: false, solo: false },
         Ev::In(Inbound::Ack { sel: 0, deco: Deco::default() }),
         Ev::MakeStream { sel: 0 },
     ]
@@ -578,7 +578,7 @@ impl Property for C09 {
 
     fn exhaustive(tier: Tier, worker: usize, workers: usize) -> Box<dyn Iterator<Item = Scenario>> {
         let p = |pid: u16, dup: bool| {
-            Ev::In(Inbound::Publish { qos: 2, dup, retain: false, pid, target: Target::Sub(0), payload_len: 0 })
+            Ev::In(Inbound::Publish { qos: 2, dup, retain: false, pid, target: Target::Sub(0), payload_len: 0, props: 0 })
         };
         let alphabet = vec![
             p(1, false),
@@ -653,9 +653,9 @@ impl Property for C10 {
         let ok = Deco::default();
         let failing = Deco { reason: 2, ..Default::default() }; // index 2 = 0x80 in PUBACK/PUBREC tables
         let alphabet = vec![
-            Ev::Start { h: 0, kind: OpKind::Pub1, settle: false },
-            Ev::Start { h: 0, kind: OpKind::Pub2, settle: false },
-            Ev::Start { h: 0, kind: OpKind::Pub0, settle: false },
+            Ev::Start { h: 0, kind: OpKind::Pub1, settle: false, solo: false },
+            Ev::Start { h: 0, kind: OpKind::Pub2, settle: false, solo: false },
+            Ev::Start { h: 0, kind: OpKind::Pub0, settle: false, solo: false },
             Ev::In(Inbound::Ack { sel: 0, deco: ok }),
             Ev::In(Inbound::Ack { sel: 0, deco: failing }),
             Ev::In(Inbound::Ack { sel: 65535, deco: ok }),
@@ -668,11 +668,11 @@ impl Property for C10 {
         if tier == Tier::Thorough && worker < 2 {
             let mut events = vec![];
             for i in 0..65_536u32 {
-                events.push(Ev::Start { h: 0, kind: if i % 2 == 0 { OpKind::Pub1 } else { OpKind::Pub2 }, settle: false });
+                events.push(Ev::Start { h: 0, kind: if i % 2 == 0 { OpKind::Pub1 } else { OpKind::Pub2 }, settle: false, solo: false });
             }
             events.push(Ev::In(Inbound::Ack { sel: 30000, deco: ok }));
-            events.push(Ev::Start { h: 0, kind: OpKind::Pub1, settle: false });
-            events.push(Ev::Start { h: 0, kind: OpKind::Pub2, settle: false });
+            events.push(Ev::Start { h: 0, kind: OpKind::Pub1, settle: false, solo: false });
+            events.push(Ev::Start { h: 0, kind: OpKind::Pub2, settle: false, solo: false });
             fill.push(Scenario { receive_max: if worker == 0 { None } else { Some(65535) }, max_packet_size: None, id_offset: 0, events });
         }
         Box::new(
@@ -702,7 +702,8 @@ impl Property for C10 {
                     .events
                     .iter()
                     .flat_map(|e| match e {
-                        Ev::Start { h, kind, .. } => vec![Ev::Start { h: *h, kind: *kind, settle: true }],
+                        // alternately: everything settles at the start / only the new request is served
+                        Ev::Start { h, kind, .. } => vec![Ev::Start { h: *h, kind: *kind, settle: true, solo: (*h as usize + case.events.len()) % 2 == 0 }, Ev::Settle],
                         Ev::In(x) => vec![Ev::In(x.clone()), Ev::PollCtx],
                         other => vec![other.clone(), Ev::Settle],
                     })
@@ -850,6 +851,31 @@ impl Property for C14 {
                 o.fail = Some(f);
             }
         }
+        // a stream with a long backlog (more messages than any internal batch size) at the drop
+        for n in [32usize, 33, 70] {
+            if o.fail.is_some() {
+                break;
+            }
+            let mut events = vec![
+                Ev::Start { h: 0, kind: OpKind::Sub(0), settle: false, solo: false },
+                Ev::Settle,
+                Ev::In(Inbound::Ack { sel: 65535, deco: Deco::default() }),
+                Ev::Settle,
+                Ev::MakeStream { sel: 65535 },
+            ];
+            for k in 0..n {
+                events.push(Ev::In(Inbound::Publish { qos: (k % 3) as u8, dup: false, retain: false, pid: 0, target: Target::Sub(0), payload_len: 1, props: 0 }));
+            }
+            events.push(Ev::Settle);
+            events.push(Ev::DropCtx);
+            let scn = Scenario { receive_max: None, max_packet_size: None, id_offset: 0, events };
+            let out = run(&scn, &cfg);
+            o.class("drop-with-long-stream-backlog");
+            if let Some(mut f) = failure_for(&out, &["C14/", "C07/stream/message-lost"]) {
+                f.msg = format!("stream with {n} buffered messages when the context was dropped: {}", f.msg);
+                o.fail = Some(f);
+            }
+        }
         // a context that is dropped without run() ever having been called, and one dropped in
         // the middle of connect(): requests already submitted must fail, not hang
         if o.fail.is_none() {
@@ -981,8 +1007,8 @@ impl Property for C15 {
     fn exhaustive(tier: Tier, worker: usize, workers: usize) -> Box<dyn Iterator<Item = Scenario>> {
         let ok = Deco::default();
         let alphabet = vec![
-            Ev::Start { h: 0, kind: OpKind::Pub2, settle: true },
-            Ev::Start { h: 0, kind: OpKind::Pub1, settle: true },
+            Ev::Start { h: 0, kind: OpKind::Pub2, settle: true, solo: false },
+            Ev::Start { h: 0, kind: OpKind::Pub1, settle: true, solo: false },
             Ev::In(Inbound::Ack { sel: 0, deco: ok }),
             Ev::PollCtx,
             Ev::PollOp { sel: 0 },
@@ -1140,6 +1166,7 @@ impl Property for C13 {
                 let racing = h % 5 == 1;
                 let mut scn = prefix.clone();
                 let mut cfg = SimCfg::default();
+                #[allow(unused_assignments)]
                 if pressure {
                     cfg.write = WritePlan { per_call: 2, stall: Some(3) };
                     o.class("write-back-pressure");
@@ -1147,10 +1174,35 @@ impl Property for C13 {
                 if racing {
                     cfg.auto_settle = false;
                     scn.events = scn.events.into_iter().flat_map(|e| [e, Ev::Settle]).collect();
-                    scn.events.push(Ev::In(Inbound::Publish { qos: 1, dup: false, retain: false, pid: 0, target: Target::Sub(0), payload_len: 1 }));
+                    scn.events.push(Ev::In(Inbound::Publish { qos: 1, dup: false, retain: false, pid: 0, target: Target::Sub(0), payload_len: 1, props: 0 }));
                     o.class("inbound-packet-buffered-at-cause");
                 }
                 scn.events.push(Ev::Terminate(cause.clone()));
+                // requests that get queued BEHIND the user's DISCONNECT before the context runs
+                // (another clone's ping; a QoS 2 future polled late): nothing may follow it
+                let behind = h % 7 == 2 && matches!(cause, Cause::UserDisconnect(_));
+                if behind {
+                    if cfg.auto_settle {
+                        cfg.auto_settle = false;
+                        let n = scn.events.len() - 1;
+                        let mut evs: Vec<Ev> = scn.events.drain(..n).flat_map(|e| [e, Ev::Settle]).collect();
+                        // leave the last acknowledgement of the prefix unseen by its future
+                        if let Some(pos) = evs.iter().rposition(|e| matches!(e, Ev::In(Inbound::Ack { .. }))) {
+                            if pos + 1 < evs.len() {
+                                evs[pos + 1] = Ev::PollCtx;
+                            }
+                        }
+                        evs.append(&mut scn.events);
+                        scn.events = evs;
+                    }
+                    scn.events.push(Ev::PollOp { sel: 65535 }); // the DISCONNECT is submitted
+                    scn.events.push(Ev::CloneHandle);
+                    scn.events.push(Ev::Start { h: 255, kind: OpKind::Ping, settle: false, solo: false });
+                    scn.events.push(Ev::PollOp { sel: 65535 }); // the ping is queued behind it
+                    scn.events.push(Ev::PollOp { sel: 0 }); // an older future polled late
+                    scn.events.push(Ev::PollOp { sel: 32768 });
+                    o.class("requests-queued-behind-the-user-disconnect");
+                }
                 scn.events.push(Ev::Settle);
                 let out = run(&scn, &cfg);
                 o.nontrivial = out.stats.cause_with_outstanding || out.stats.cause_with_stream || out.stats.oversized_disconnect;
@@ -1272,7 +1324,7 @@ pub struct C16Case {
 
 impl Property for C16 {
     const ID: &'static str = "C16";
-    const RULE: &'static str = "quiescent-stepping scripts (operations of every kind, acknowledgements, inbound messages, stream polls; Receive Maximum 65535 so no quota-edge races) each executed under {wake-only; wake-only + sweep polling every task after every event; wake-only + spurious polls at generated positions; sweep-at-every-quiescent-point-must-change-nothing} x {whole-packet reads, 1-byte reads, reader capped at 3 bytes that returns Pending (self-waking) before every delivery} x {full writes, 3-byte partial writes with back-pressure}; per-source projections (packets per operation, acknowledgement sequence, every result, every stream's items, run()) must be equal across all runs. Non-trivial = >= 1 inbound packet split over reads and >= 1 operation completing";
+    const RULE: &'static str = "quiescent-stepping scripts (operations of every kind, acknowledgements, inbound messages, stream polls; Receive Maximum 65535 so no quota-edge races) each executed under {wake-only; wake-only + sweep polling every task after every event; wake-only + spurious polls at generated positions; sweep-at-every-quiescent-point-must-change-nothing; streams polled only when woken + sweep must yield no item} x {whole-packet reads, 1-byte reads, reader capped at 3 bytes that returns Pending (self-waking) before every delivery} x {full writes, 3-byte partial writes with back-pressure}; per-source projections (packets per operation, acknowledgement sequence, every result, every stream's items, run()) must be equal across all runs. Non-trivial = >= 1 inbound packet split over reads and >= 1 operation completing";
     type Case = C16Case;
 
     fn strategy(tier: Tier) -> BoxedStrategy<C16Case> {
@@ -1301,6 +1353,26 @@ impl Property for C16 {
 
     fn quick_profiles() -> &'static [&'static str] {
         &["checked", "release"]
+    }
+
+    /// long backlogs on one stream (more than any internal batch size), polled in bursts
+    fn exhaustive(_tier: Tier, worker: usize, workers: usize) -> Box<dyn Iterator<Item = C16Case>> {
+        let mut v = vec![];
+        for (n, poll_every) in [(40usize, 0usize), (70, 0), (100, 7), (64, 33)] {
+            let mut events = vec![
+                Ev::Start { h: 0, kind: OpKind::Sub(0), settle: false, solo: false },
+                Ev::In(Inbound::Ack { sel: 65535, deco: Deco::default() }),
+                Ev::MakeStream { sel: 65535 },
+            ];
+            for k in 0..n {
+                events.push(Ev::In(Inbound::Publish { qos: (k % 3) as u8, dup: false, retain: false, pid: 0, target: Target::Sub(0), payload_len: 1, props: (k % 5) as u8 }));
+                if poll_every > 0 && k % poll_every == poll_every - 1 {
+                    events.push(Ev::PollStream { sel: 0 });
+                }
+            }
+            v.push(C16Case { scn: Scenario { receive_max: None, max_packet_size: None, id_offset: 0, events }, spurious: vec![(1000, 0), (40000, 2)] });
+        }
+        Box::new(v.into_iter().enumerate().filter(move |(i, _)| i % workers == worker).map(|(_, c)| c))
     }
 
     fn assumptions() -> Vec<String> {
@@ -1337,7 +1409,7 @@ impl Property for C16 {
         let mut completions = reference.stats.completions;
         let mut split = 0;
         let writes = [WritePlan::default(), WritePlan { per_call: 3, stall: Some(5) }];
-        for (di, disc) in ["wake-only", "sweep-after-event", "spurious-polls", "sweep-at-quiescence"].iter().enumerate() {
+        for (di, disc) in ["wake-only", "sweep-after-event", "spurious-polls", "sweep-at-quiescence", "streams-polled-only-when-woken"].iter().enumerate() {
             for rd in [0u16, 1, 2] {
                 let chunk = if rd == 1 { 1 } else { 0 };
                 for (wi, wp) in writes.iter().enumerate() {
@@ -1351,9 +1423,8 @@ impl Property for C16 {
                         read_yield: rd == 2,
                         read_chunk: chunk,
                         write: wp.clone(),
-                        drain_streams: false,
-                        check_sweep_noop: di == 3,
-                        ..Default::default()
+                        drain_streams: di == 4,
+                        check_sweep_noop: di == 3 || di == 4,
                     };
                     let scn = if di == 2 { &with_spurious } else { &base };
                     let out = run(scn, &cfg);
